@@ -7,7 +7,7 @@ import numpy as np
 
 from vf import env, synth
 
-FS_KINDS = ["local", "file", "memory", "vfs"]
+FS_KINDS = ["local", "file", "memory", "vfs", "lvfs"]
 _counter = itertools.count()
 
 
